@@ -29,6 +29,14 @@ def scratch() -> Path:
     return _dir[1]
 
 
+def cleanup():
+    """remove this process's scratch directory (pool workers do not run atexit handlers)"""
+    global _dir
+    if _dir is not None and _dir[0] == os.getpid():
+        shutil.rmtree(_dir[1], ignore_errors=True)
+        _dir = None
+
+
 class TempFasta:
     def __init__(self, data: bytes, name="x.fa"):
         self.dir = Path(tempfile.mkdtemp(prefix="c-", dir=scratch()))
